@@ -1406,7 +1406,7 @@ namespace cppcms { namespace xss {
 				if(	!endptr 
 					|| *endptr!=';'
 					|| code_point>0x10FFFF
-					|| (0xD800 <= code_point  && code_point<= 0xDBFF)
+					|| (0xD800 <= code_point  && code_point<= 0xDFFF)
 					|| code_point == 0xFFFF 
 					|| code_point == 0xFFFE
 					|| (0x7F <= code_point && code_point <= 0x9F)
